@@ -149,13 +149,18 @@ def _run_driver_once(lines, timeout):
     return out
 
 
+# request lines a harness module knows to be expensive for the model although they are short (e.g. a gadget of arity 17:
+# 2^16 clauses): they are spread over the parallel driver processes like the very long ones
+HEAVY_REQUESTS = set()
+
+
 def run_driver(lines, timeout=600):
     """answers of the Lean driver, one per request line, in order.  The driver is a pure function of each line, so a
     batch with very long requests (graphs with 10^4 edges cost seconds each in the model) is spread over a few driver
     processes; the answers are the same."""
     if not lines:
         return []
-    heavy = [i for i, l in enumerate(lines) if len(l) > 20000]
+    heavy = [i for i, l in enumerate(lines) if len(l) > 20000 or l in HEAVY_REQUESTS]
     if len(heavy) < 2:
         return _run_driver_once(lines, timeout)
     from concurrent.futures import ThreadPoolExecutor
